@@ -44,8 +44,46 @@ def lines_from_disk(data: bytes) -> list[str]:
     return split_lines(decode_disk(data))
 
 
+# LSP positions count UTF-16 code units (the protocol's default and only mandatory encoding; fortls
+# negotiates nothing else).  The model stores code points and converts at the boundary; for text
+# inside the Basic Multilingual Plane both coincide.
+
+def u16len(s: str) -> int:
+    return len(s) + sum(1 for c in s if ord(c) > 0xFFFF)
+
+
+def idx_to_u16(line: str, idx: int) -> int:
+    return u16len(line[:idx])
+
+
+def u16_to_idx(line: str, u: int) -> int:
+    """index of the code point that starts at UTF-16 offset u; None inside a surrogate pair / past the end"""
+    if line.isascii():
+        return u if 0 <= u <= len(line) else None
+    units = 0
+    for i, c in enumerate(line):
+        if units == u:
+            return i
+        if units > u:
+            return None
+        units += 2 if ord(c) > 0xFFFF else 1
+    return len(line) if units == u else None
+
+
 def pos_ok(lines: list[str], line: int, ch: int) -> bool:
-    return 0 <= line < len(lines) and 0 <= ch <= len(lines[line])
+    return 0 <= line < len(lines) and u16_to_idx(lines[line], ch) is not None
+
+
+def to_wire(lines: list[str], change: dict) -> dict:
+    """a change whose range is given in code-point columns of `lines` -> the same change in UTF-16 columns"""
+    rng = change.get("range")
+    if rng is None:
+        return change
+    out = dict(change)
+    out["range"] = {k: {"line": rng[k]["line"],
+                        "character": idx_to_u16(lines[rng[k]["line"]], rng[k]["character"])}
+                    for k in ("start", "end")}
+    return out
 
 
 def apply_change(lines: list[str], change: dict) -> list[str]:
@@ -58,6 +96,8 @@ def apply_change(lines: list[str], change: dict) -> list[str]:
     el, ec = rng["end"]["line"], rng["end"]["character"]
     if not (pos_ok(lines, sl, sc) and pos_ok(lines, el, ec)) or (el, ec) < (sl, sc):
         raise InvalidEdit(f"range {sl}:{sc}-{el}:{ec} outside document of {len(lines)} lines")
+    sc = u16_to_idx(lines[sl], sc)
+    ec = u16_to_idx(lines[el], ec)
     head = lines[sl][:sc]
     tail = lines[el][ec:]
     mid = list(pieces)
